@@ -157,6 +157,10 @@ class Filter:
         conditions += self._continent_condition(table)
         conditions += self._bounding_box_condition(table)
 
+        # A filter with no conditions selects everything.
+        if not conditions:
+            return ('', [])
+
         conds, params = list(zip(*conditions))
         return (
             ' AND '.join(conds),
